@@ -55,6 +55,12 @@ impl FromStr for Grade {
     fn from_str(s: &str) -> Result<Self, Self::Err> {
         let f = str::parse::<f64>(s)
             .map_err(|e| format!("failure reading grade value {}: {}", s, e))?;
+        if !f.is_finite() {
+            return Err(format!(
+                "grade value {} invalid, must be a finite number",
+                f
+            ));
+        }
         Ok(Grade::new(f))
     }
 }
